@@ -29,7 +29,21 @@ LH == Loc(M0, 5, <<Ln(H, 30, 0)>>, FALSE)
 \* 4..6: location tables of three, one and two entries that give the same ids to different functions
 F2 == Fn("f", "f", "b.c", 0)      \* another function called f, in another file (7: only a file-sensitive view tells them apart)
 LF2 == Loc(M0, 6, <<Ln(F2, 10, 0)>>, FALSE)
-Stk == << <<LF>>, <<LG, LF>>, <<LG>>, <<LH, LG, LF>>, <<LH>>, <<LG, LH>>, <<LF2>>, <<LG, LF2>> >>
+\* 9..15: a function that MOVED inside its file between two builds (same name, system name and file, another start
+\* line).  The start line is an attribute of the function record (Merge keeps such records and their stacks apart:
+\* StackKey contains it) but NOT of a report entry: ReportRules.EntryOfLine copies it for nameless functions only, so
+\* at functions / filefunctions granularity both records are ONE entry and at lines granularity the line tells them apart.
+W1 == Fn("w", "w", "a.c", 8)
+W2 == Fn("w", "w", "a.c", 23)
+FS == Fn("f", "f", "a.c", 5)      \* F as a newer profile records it (F itself has no start line)
+LW1 == Loc(M0, 7, <<Ln(W1, 10, 0)>>, FALSE)
+LW2 == Loc(M0, 2, <<Ln(W2, 25, 0)>>, FALSE)
+LW3 == Loc(M0, 7, <<Ln(W2, 10, 0)>>, FALSE)     \* the other start line at the address and line of LW1
+LFS == Loc(M0, 3, <<Ln(FS, 10, 0)>>, FALSE)
+Stk == << <<LF>>, <<LG, LF>>, <<LG>>, <<LH, LG, LF>>, <<LH>>, <<LG, LH>>, <<LF2>>, <<LG, LF2>>,
+          <<LW1>>, <<LW2>>, <<LW1, LG>>, <<LW2, LG>>, <<LW3, LG>>, <<LFS>>, <<LG, LW2>> >>
+\* pairs of stacks (first build, second build) that hold the same function under two start lines
+MovedPairs == { <<9, 10>>, <<11, 12>>, <<11, 13>>, <<1, 14>>, <<11, 15>>, <<2, 14>> }
 
 Factor(u) == CASE u = "us" -> 1 [] u = "ms" -> 1000 [] u = "milliseconds" -> 1000 [] u = "s" -> 1000000 [] u = "B" -> 1 [] u = "bytes" -> 1 [] u = "kB" -> 1024 [] OTHER -> 1
 VT(t, u) == [t |-> t, u |-> u]
@@ -85,6 +99,19 @@ Cases(d) ==
     \* homonymous functions of different files across the inputs
     \cup { [srcs |-> <<P(1, <<S2(1, <<1, 3>>), S2(2, <<2, 2>>)>>), P(1, <<S2(7, <<5, 1>>)>>)>>, bases |-> <<>>, mode |-> "plain", norm |-> FALSE] }
     \cup { [srcs |-> <<P(1, <<S2(1, <<1, 3>>)>>)>>, bases |-> <<P(1, <<S2(k, <<5, 1>>)>>)>>, mode |-> m, norm |-> FALSE] : k \in {7, 8}, m \in {"base", "diff_base"} }
+    \* a function with different start lines across the inputs (moved between two builds) and within one input;
+    \* type list 2 has a coarser unit in column 1; no zero values (they belong to the class of the ScaleN finding)
+    \cup { [srcs |-> <<P(1, <<S2(p[1], <<9, 3>>)>>), P(tl, <<S2(p[2], <<10, 4>>)>>)>>, bases |-> <<>>, mode |-> "plain", norm |-> FALSE] :
+             p \in MovedPairs, tl \in {1, 2} }
+    \cup { [srcs |-> <<P(1, <<S2(p[2], v)>>)>>, bases |-> <<P(tl, <<S2(p[1], <<9, 3>>)>>)>>, mode |-> m, norm |-> FALSE] :
+             p \in MovedPairs, tl \in {1, 2}, m \in {"base", "diff_base"}, v \in {<<10, 4>>, <<9, 3>>} }   \* <<9, 3>> against list 1: the entry cancels
+    \cup { [srcs |-> <<P(1, <<S2(p[1], <<9, 3>>), S2(p[2], <<10, 4>>)>>)>>, bases |-> <<>>, mode |-> "plain", norm |-> FALSE] : p \in MovedPairs }
+    \cup { [srcs |-> <<P(1, <<S2(p[1], <<9, 3>>), S2(p[2], <<10, 4>>)>>)>>, bases |-> <<P(1, <<S2(q, <<1, 1>>)>>)>>, mode |-> m, norm |-> FALSE] :
+             p \in {<<11, 12>>, <<11, 13>>}, q \in {11, 12, 13, 2}, m \in {"base", "diff_base"} }
+    \cup { [srcs |-> <<P(1, <<S2(11, <<9, 3>>), S2(12, <<10, 4>>)>>), P(1, <<S2(12, <<2, 2>>), S2(13, <<1, 3>>)>>)>>,
+             bases |-> b, mode |-> IF b = <<>> THEN "plain" ELSE "base", norm |-> FALSE] : b \in {<<>>, <<P(1, <<S2(11, <<1, 1>>), S2(15, <<2, 2>>)>>)>>} }
+    \cup { [srcs |-> <<a>>, bases |-> <<a>>, mode |-> m, norm |-> FALSE] : m \in {"base", "diff_base"},
+             a \in { P(1, <<S2(11, <<9, 3>>), S2(12, <<10, 4>>)>>) } }
     \cup (IF Tier = "thorough"
           THEN { [srcs |-> <<a, b, c>>, bases |-> <<e>>, mode |-> m, norm |-> FALSE] :
                    a \in Profs(1), b \in Profs(2), c \in Profs(3) \cup Profs(5), e \in Profs(4), m \in {"base", "diff_base"} }
@@ -133,6 +160,13 @@ RowsD(c, si) == { [name |-> r.e.name, flat |-> r.rawflat, cum |-> r.rawcum] : r 
 \* the same at a granularity that keeps the file: entries are (function, file)
 RCfgF(si) == [gran |-> "filefunctions", noinl |-> FALSE, si |-> si, mean |-> FALSE, troot |-> <<>>, tleaf |-> <<>>]
 RowsDF(c, si) == { [name |-> r.e.name \o " " \o r.e.file, flat |-> r.rawflat, cum |-> r.rawcum] : r \in NodeTableD(CombinedD(c), RCfgF(si)) }
+\* the same at lines granularity: entries are (function, file, line), named as pprof prints them
+RCfgL(si) == [gran |-> "lines", noinl |-> FALSE, si |-> si, mean |-> FALSE, troot |-> <<>>, tleaf |-> <<>>]
+RowsDL(c, si) == { [name |-> PName(r.e), flat |-> r.rawflat, cum |-> r.rawcum] : r \in NodeTableD(CombinedD(c), RCfgL(si)) }
+\* does the case hold one function (name, system name, file) under two start lines?
+FnsOf(c) == UNION { UNION { UNION { {p.samples[i].locs[j].lines[k].fn : k \in DOMAIN p.samples[i].locs[j].lines} :
+                                      j \in DOMAIN p.samples[i].locs } : i \in DOMAIN p.samples } : p \in Range(AllProfs(c)) }
+Moved(c) == \E a, b \in FnsOf(c) : a.name = b.name /\ a.sys = b.sys /\ a.file = b.file /\ a.start # b.start
 IsBase(s) == \E i \in DOMAIN s.lab : s.lab[i].k = "pprof::base"
 TotalOf(c, si) ==
   LET m == CombinedD(c)
@@ -186,8 +220,8 @@ MixedZero(c) == \E j \in DOMAIN AllProfs(c) : \E i \in DOMAIN AllProfs(c)[j].sam
 Class(c) == IF Rescaled(c) /\ MixedZero(c) THEN "zero-beside-nonzero-rescaled" ELSE "plain"
 Expected ==
   [ cls |-> Class(case), cols  |-> [k \in 1..NC(case) |-> [t |-> Common(case)[k], u |-> FinestUnit(case, Common(case)[k]),
-                                      rows |-> RowsD(case, k), frows |-> RowsDF(case, k), total |-> TotalOf(case, k)]],
-    empty |-> CombinedD(case) = <<>> ]
+                                      rows |-> RowsD(case, k), frows |-> RowsDF(case, k), lrows |-> RowsDL(case, k), total |-> TotalOf(case, k)]],
+    empty |-> CombinedD(case) = <<>>, moved |-> Moved(case) ]
 Finish ==
   /\ pc = "done" /\ pc' = "end"
   /\ (Emit => PrintT(ToJson([srcs |-> case.srcs, bases |-> case.bases, mode |-> case.mode, norm |-> case.norm, exp |-> Expected])))
